@@ -74,11 +74,13 @@ def main(argv=None):
         pitfall_rules(ctx, pid)
         try:
             mod.run(ctx)
+            from .premises import run_premises
+            run_premises(ctx, pid)
         except AnalysisError as e:
             if not ctx.failed():
                 raise
-            print('note: the rules of %s stopped (%s); the finding(s) of '
-                  'the common clauses stand' % (pid, e))
+            print('note: the rules of %s stopped (%s); the finding(s) '
+                  'reported so far stand' % (pid, e))
         if a.tier == 'thorough':
             if hasattr(mod, 'run_thorough'):
                 mod.run_thorough(ctx)
